@@ -64,6 +64,8 @@ def label_to_event(label):
         return dict(op="SetAttrsR", l=0, k="", a=a[0], b=0)
     if name == "DbgMode":
         return dict(op="DbgMode", l=0, k="", a=a[0], b=0)
+    if name == "PkgSkip":
+        return dict(op="PkgSkip", l=0, k=a[0], a=a[1], b=0)
     if name == "LogA":
         return dict(op="LogA", l=a[0], k=a[1], a=a[2], b=0, mc=a[3], args=parse_tuple(a[4]))
     raise Undecided("unknown action label %r" % label)
@@ -138,6 +140,11 @@ def random_behaviours(c, rng, count, depth, max_loggers):
                 beh.append(dict(op="SetAttrsR", l=0, k="", a=rng.randint(0, 1), b=0))
             elif op == "DbgMode":
                 beh.append(dict(op="DbgMode", l=0, k="", a=rng.randint(0, 1), b=0))
+            elif op == "PkgSkip":
+                k = rng.choice(["SetSkip", "WithSkip"])
+                beh.append(dict(op="PkgSkip", l=0, k=k, a=rng.choice(sorted(c["setter_args"]["Skip"]))[0], b=0))
+                if k == "WithSkip":
+                    n += 1
             elif op == "LogA":
                 ep = rng.choice(sorted(c["eps"]))
                 r_ = 8 if "Println" in ep else rng.choice(sorted(c["log_sevs"]))
